@@ -973,7 +973,9 @@ def skeleton_representatives(lines, max_tokens):
 def run(cfg):
     rep = runner.Report('C12', 'exploration')
     t0 = time.monotonic()
-    deadline = t0 + cfg.pick(300, 560)        # safety net; items not started by then are reported, exhaustive = false
+    # Time budget: items not started by then are skipped and reported, exhaustive = false.  Quick needs ~30 s of an idle
+    # 16-core machine; its limit is only a safety net for a starved one.
+    deadline = t0 + cfg.pick(600, 560)
     timeouts = multiprocessing.get_context('fork').RawValue('i', 0)
     work = make_worker(deadline, timeouts)
     tot = Totals()
@@ -1001,17 +1003,24 @@ def run(cfg):
     # (b) edits
     hand, gen, nfiles, nlines = corpus()
     lines = hand if cfg.quick else hand + gen
-    order = sorted(range(len(lines)), key=lambda i: -len(lines[i]))          # long lines first: better balance
-    phase('b:single-edits', [('single', i, lines[i]) for i in order], chunk=cfg.pick(4, 16))
+    phase('b:single-edits-hand-written', [('single', i, ln) for i, ln in enumerate(hand)], chunk=4)
     reps = []
-    if not cfg.quick:
-        reps = skeleton_representatives(lines, DOUBLE_MAX_TOKENS)
-        for lo, hi in ((0, 6), (7, 8), (9, 10), (11, 12), (13, 14), (15, 16)):
+
+    def doubles(groups):
+        for lo, hi in groups:
             grp = [(i, r) for i, r in enumerate(reps) if lo <= len(tokenize(r)) <= hi]
             parts = 1 if hi <= 12 else 2          # every part regenerates the line's edit set and takes its slice
             items = [('double', i, r, p, parts) for i, r in grp for p in range(parts)]
             if items:
                 phase('b:double-edits-%d-%d-tokens' % (lo, hi), items, chunk=1)
+
+    if not cfg.quick:
+        # Order of value per second, because the time budget may end the run early: short double edits before the
+        # single edits of the two machine-generated files (17.7 k lines of a few repeated shapes), longest doubles last.
+        reps = skeleton_representatives(lines, DOUBLE_MAX_TOKENS)
+        doubles(((0, 6), (7, 8), (9, 10), (11, 12)))
+        phase('b:single-edits-generated', [('single', len(hand) + i, ln) for i, ln in enumerate(gen)], chunk=16)
+        doubles(((13, 14), (15, 16)))
     tot.flush()
     T = tot.t
     if T['cases'] == 0:
